@@ -58,6 +58,8 @@ def derivations(model, other_idx):
         for cs in (True, False):
             out.append({"do": "chain", "src": ["c1", f"in{j}"], "cs": cs})
             out.append({"do": "chain", "src": [f"in{j}", "c1"], "cs": cs})
+    for cs in (True, False):
+        out.append({"do": "chain", "src": ["c1"], "cs": cs})
     subs = [sorted(model.all_prefixes()), P[:1], syn[:1], [], ["unknown"]]
     for s in subs:
         out.append({"do": "sub", "src": "c1", "P": s})
@@ -159,6 +161,7 @@ def run_history(case, ctx=None, want_world=False):
     fails = []
     world = make_world(case)
     snaps = {n: snap(c) for n, c in world.items()}
+    first_derived_snap = None
     nd = 0
     for i, step in enumerate(case["steps"]):
         is_derive = step["do"] not in ("add_prefix", "add_record")
@@ -188,6 +191,14 @@ def run_history(case, ctx=None, want_world=False):
             break
         if tgt in world:
             snaps[tgt] = snap(world[tgt])
+        if is_derive and exc is None and out_name == "d1":
+            first_derived_snap = snaps["d1"]
+        if case.get("repeat") and is_derive and exc is None and out_name == "d2":
+            if world["d2"] is world["d1"]:
+                fails.append((f"{step['do']}/repeated-derivation-returns-the-same-object", f"step {i} {step}: the second call returned the object of the first"))
+            elif snaps["d2"] != first_derived_snap:
+                fails.append((f"{step['do']}/repeated-derivation-shows-later-modifications", f"step {i} {step}: the second result differs from what the first call returned before it was modified"))
+            break
         if ctx is not None:
             ctx.count("evaluations", len(world) - 1)
     if want_world:
@@ -242,6 +253,13 @@ def expand_input(idx, ctx, only=None):
                 report(ctx, case3, fails)
                 if not fails:
                     ctx.count("validated")
+            # the same derivation once more: it must hand out a new object that does not show the follow-up
+            case3 = {"c1": base["c1"], "others": others, "steps": [d, a, d], "repeat": True}
+            fails = run_history(case3, ctx)
+            report(ctx, case3, fails)
+            if not fails:
+                ctx.count("validated")
+                ctx.count("repeated_derivations")
             for d2 in second_derivations(world2["d1"]):
                 case3 = {"c1": base["c1"], "others": others, "steps": [d, a, d2]}
                 fails = run_history(case3, ctx)
@@ -292,4 +310,4 @@ def describe(tier):
 
 
 def required_counters(tier):
-    return ["validated", "derivations_on_incrementally_built_inputs", "derived_actually_mutated", "second_level_derivations", "steps_rejected"] + [f"derivations_{k}" for k in ("chain", "sub", "remap_curie", "remap_uri", "rewire", "discover")]
+    return ["validated", "derivations_on_incrementally_built_inputs", "derived_actually_mutated", "repeated_derivations", "second_level_derivations", "steps_rejected"] + [f"derivations_{k}" for k in ("chain", "sub", "remap_curie", "remap_uri", "rewire", "discover")]
